@@ -224,7 +224,7 @@ func cmdLiveness(args []string) int {
 		cl.bodiesMu.Unlock()
 		out.emit(obj{"ev": "stable", "order": []string{"fifo", "link_fifo", "any"}[i%3], "h": absNum(top), "bound": bound, "crashed": crashedNames, "vmax": absNum(vmax), "faulty": faulty})
 		// the timely fair schedule
-		for iter := 0; iter < 20000 && lr.timeouts <= 2*bound+10; iter++ {
+		for iter := 0; iter < 20000 && lr.timeouts <= 2*bound+10 && !r.beyond; iter++ {
 			if done, body := lr.commitOf(top); done && len(r.pool) == 0 {
 				_ = body
 				break
